@@ -13,6 +13,17 @@ Proof.
   intros Hwf Hl. split; [split; [apply encode_body_nonempty|exact Hl]|now apply wal_roundtrip].
 Qed.
 
+Lemma wf_not_too_deep r : wf_rec r = true -> rec_too_deep r = false.
+Proof.
+  unfold rec_too_deep. destruct r; intros H; try (now rewrite Bool.andb_false_r).
+  - cbn [wf_rec] in H. apply andb_prop in H as [_ H]. apply wfd_inv in H as [_ H].
+    destruct (pv_max_nesting <? cdepth value) eqn:E; [lia|apply Bool.andb_false_r].
+  - cbn [wf_rec] in H. apply andb_prop in H as [_ H]. apply wfd_inv in H as [_ H].
+    destruct (pv_max_nesting <? cdepth value) eqn:E; [lia|apply Bool.andb_false_r].
+Qed.
+Lemma rec_ok_wf r : wf_rec r = true -> len (encode_body r) <= wal_max_record_len -> rec_ok r.
+Proof. intros H1 H2. split; [now apply body_ok_wf|now apply wf_not_too_deep]. Qed.
+
 Theorem commit_after_tail_wf l rs t txs (newtx : tx) t2 :
   valid_log l rs -> next_frame t = NStop -> replay rs None [] [] = Some txs ->
   forallb (fun r => negb (is_marker r)) (snd newtx) = true ->
@@ -25,7 +36,7 @@ Theorem commit_after_tail_wf l rs t txs (newtx : tx) t2 :
     open_log (l2 ++ t2) = inl (l2, txs ++ [newtx]).
 Proof.
   intros Hv Ht Hr Hops Hnew Ht2. apply (commit_after_tail l rs t txs newtx t2 Hv Ht Hr Hops); [|exact Ht2].
-  clear -Hnew. induction Hnew as [|r rs' [H1 H2] _ IH]; constructor; [now apply body_ok_wf|exact IH].
+  clear -Hnew. induction Hnew as [|r rs' [H1 H2] _ IH]; constructor; [now apply rec_ok_wf|exact IH].
 Qed.
 
 (* a log written record by record is a valid log *)
@@ -35,4 +46,45 @@ Theorem written_log_valid rs :
 Proof.
   intros H. exists (map encode_body rs). split; [reflexivity|].
   induction H as [|r rs' [H1 H2] _ IH]; constructor; [now apply body_ok_wf|exact IH].
+Qed.
+
+
+(* any number of rounds: (whatever got behind the log, the transaction committed after opening it) *)
+Fixpoint run_rounds (file : bytes) (rounds : list (bytes * tx)) : option bytes :=
+  match rounds with
+  | [] => Some file
+  | (t, newtx) :: more =>
+      match open_log (file ++ t) with
+      | inl (f1, _) =>
+          match append_all f1 (commit_records newtx) with
+          | Some f2 => run_rounds f2 more
+          | None => None
+          end
+      | inr _ => None
+      end
+  end.
+
+Definition round_ok (r : bytes * tx) : Prop :=
+  next_frame (fst r) = NStop /\
+  forallb (fun x => negb (is_marker x)) (snd (snd r)) = true /\
+  Forall (fun x => wf_rec x = true /\ len (encode_body x) <= wal_max_record_len) (commit_records (snd r)).
+
+Theorem rounds_tolerated rounds : forall l recs txs,
+  valid_log l recs -> replay recs None [] [] = Some txs -> Forall round_ok rounds ->
+  exists l' recs',
+    run_rounds l rounds = Some l' /\
+    valid_log l' recs' /\
+    replay recs' None [] [] = Some (txs ++ map snd rounds) /\
+    forall t, next_frame t = NStop -> open_log (l' ++ t) = inl (l', txs ++ map snd rounds).
+Proof.
+  induction rounds as [|[t newtx] more IH]; intros l recs txs Hv Hr Hok.
+  - exists l, recs. cbn [run_rounds map]. rewrite app_nil_r. repeat split; try assumption.
+    intros t Ht. now destruct (tail_tolerated l recs t txs Hv Ht Hr) as (Ho & _).
+  - inversion Hok as [|? ? (Ht & Hops & Hwf) Hmore]; subst. cbn [fst snd] in *.
+    destruct (commit_after_tail_wf l recs t txs newtx [] Hv Ht Hr Hops Hwf (short_stops [] eq_refl))
+      as (l1 & l2 & Ho & Ha & Hv2 & _).
+    pose proof (replay_commit recs txs newtx Hr Hops) as Hr2.
+    destruct (IH l2 (recs ++ commit_records newtx) (txs ++ [newtx]) Hv2 Hr2 Hmore) as (l' & recs' & Hrun & Hv' & Hr' & Hopen).
+    exists l', recs'. cbn [run_rounds map]. rewrite Ho, Ha, <- app_assoc in *. cbn [app] in *.
+    repeat split; assumption.
 Qed.
